@@ -620,3 +620,39 @@ Qed.
 (* a short token in exponent notation with a huge exponent is refused (the reason the limit exists) *)
 Example num_unmarshal_huge_exponent : num_unmarshal [49; 101; 51; 48; 48; 48; 48; 48; 48; 48; 48]%N = None.
 Proof. vm_compute. reflexivity. Qed.
+
+(* ------------------------------------------------------------------------------------------------ *)
+(* ToXText and "=" with the render size limit: below it as before, above it error values *)
+Lemma equal_op_num_spec : forall a b, num_render_ok a = true -> num_render_ok b = true ->
+  equal_op_num a b = Some (dec_eqb a b).
+Proof.
+  intros a b Ha Hb. unfold equal_op_num, to_text_num. rewrite Ha, Hb. f_equal. apply equal_num_spec.
+Qed.
+
+Lemma equal_op_num_over : forall a b, num_render_ok a = false \/ num_render_ok b = false -> equal_op_num a b = None.
+Proof.
+  intros a b [H|H]; unfold equal_op_num, to_text_num; rewrite H; [reflexivity|]. destruct (num_render_ok a); reflexivity.
+Qed.
+
+Lemma to_text_num_roundtrip : forall d, num_render_ok d = true -> (int32_min <= dexp d)%Z ->
+  exists t d', to_text_num d = Some t /\ parse_number t = Some d' /\ dec_eq d' d.
+Proof.
+  intros d Hok Hd. destruct (parse_number_render d Hd) as (d' & Hp & Heq).
+  exists (render d), d'. unfold to_text_num. rewrite Hok. repeat split; assumption.
+Qed.
+
+Lemma to_text_num_over : forall d, num_render_ok d = false -> to_text_num d = None.
+Proof. intros d H. unfold to_text_num. rewrite H. reflexivity. Qed.
+
+Lemma equal_op_num_text_spec : forall a s d, num_render_ok a = true -> parse_number s = Some d ->
+  exists r, equal_op_num_text a s = Some r /\ (r = true <-> s = render d /\ dec_eq a d).
+Proof.
+  intros a s d Hok Hp. unfold equal_op_num_text, to_text_num. rewrite Hok. eexists. split; [reflexivity|].
+  apply (equal_num_text_spec a s d Hp).
+Qed.
+
+(* where the limit lies: 1e-999999 is the last power of ten that is still converted, 1e-1000000 is not *)
+Example num_render_limit :
+  num_render_ok (Dec 1 (-999999)) = true /\ num_render_ok (Dec 1 (-1000000)) = false
+  /\ num_render_ok (Dec 1 1000000) = false /\ equal_op_num (Dec 1 (-1000001)) (Dec 1 (-1000001)) = None.
+Proof. repeat split. Qed.
